@@ -98,6 +98,119 @@ fn gen_partition(r: &mut Rng, n: usize) -> (&'static str, Vec<usize>) {
 
 type Out = (Result<usize, coupe::Error>, Vec<usize>);
 
+/// genuine binary64 weights: decimal fractions, mixed magnitudes, sums that round, ties between sums
+fn gen_f64_weights(r: &mut Rng, big: bool) -> (&'static str, Vec<f64>) {
+    let maxn = if big { 24 } else { 14 };
+    match r.below(8) {
+        0 => {
+            let n = r.range(2, maxn) as usize;
+            ("f64_tenths", (0..n).map(|_| r.range(0, 30) as f64 / 10.0).collect())
+        }
+        1 => {
+            let n = r.range(2, maxn) as usize;
+            ("f64_mixed_magnitudes", (0..n).map(|_| (r.range(0, 1000) as f64 / 1000.0) * 10f64.powi(r.range(-6, 6) as i32)).collect())
+        }
+        2 => {
+            let n = r.range(2, maxn) as usize;
+            ("f64_random_bits", (0..n).map(|_| f64::from_bits(0x3FF0_0000_0000_0000 + (r.next() >> 12)) - 1.0).collect())
+        }
+        3 => {
+            let n = r.range(3, maxn) as usize;
+            ("f64_ties", (0..n).map(|_| *r.pick(&[0.1, 0.2, 0.3, 0.30000000000000004, 0.7, 0.0, 1.1])).collect())
+        }
+        4 => {
+            let n = r.range(2, 10) as usize;
+            let mut ws: Vec<f64> = (0..n).map(|_| r.range(0, 100) as f64 / 7.0).collect();
+            let i = r.below(n as u64) as usize;
+            ws[i] = 1e15 + r.range(0, 1000) as f64 / 3.0;
+            ("f64_one_dominant", ws)
+        }
+        5 => {
+            let n = r.range(2, maxn) as usize;
+            ("f64_thirds", (0..n).map(|_| r.range(0, 12) as f64 / 3.0).collect())
+        }
+        6 => {
+            let n = r.range(2, 10) as usize;
+            ("f64_small_decimals", (0..n).map(|_| r.range(1, 9) as f64 * 0.1).collect())
+        }
+        _ => {
+            let n = r.range(1, 8) as usize;
+            let mut ws: Vec<f64> = (0..n).map(|_| r.range(0, 9) as f64 / 4.0).collect();
+            let i = r.below(n as u64) as usize;
+            ws[i] = if r.chance(1, 4) { -0.0 } else { -(r.range(1, 9) as f64) / 8.0 };
+            ("f64_negative", ws)
+        }
+    }
+}
+
+/// One call on genuine f64 weights, on a rayon pool of ONE thread (fixed summation order in
+/// compute_parts_load).  Prints the outcome; used in a child process for VnBest, whose loop may not end.
+fn run_f64(alg: u64, wf: Vec<f64>, p0: Vec<usize>) -> Out {
+    let pool = coupe::rayon::ThreadPoolBuilder::new().num_threads(1).build().unwrap();
+    pool.install(move || {
+        let mut p = p0;
+        let r = if alg == 0 { coupe::VnBest.partition(&mut p, wf.iter().cloned()) } else { coupe::VnFirst.partition(&mut p, &wf[..]) };
+        (r, p)
+    })
+}
+
+fn child_main(args: &[String]) {
+    // --child ALG BITS,.. P0,..
+    let alg: u64 = args[0].parse().unwrap();
+    let wf: Vec<f64> = args[1].split(',').filter(|x| !x.is_empty()).map(|x| f64::from_bits(x.parse().unwrap())).collect();
+    let p0: Vec<usize> = args[2].split(',').filter(|x| !x.is_empty()).map(|x| x.parse().unwrap()).collect();
+    let (r, p) = run_f64(alg, wf, p0);
+    match r {
+        Ok(n) => println!("OK {}", n),
+        Err(e) => println!("ERR {}|{:?}", coq_err(&e), e),
+    }
+    println!("{}", p.iter().map(|x| x.to_string()).collect::<Vec<_>>().join(","));
+}
+
+/// VnBest on genuine f64 weights in a child process that can be killed (a hung thread cannot)
+fn call_child(alg: u64, wf: &[f64], p0: &[usize], timeout: Duration) -> Guarded<(Result<usize, String>, Vec<usize>)> {
+    let exe = std::env::current_exe().unwrap();
+    let bits = wf.iter().map(|x| x.to_bits().to_string()).collect::<Vec<_>>().join(",");
+    let ps = p0.iter().map(|x| x.to_string()).collect::<Vec<_>>().join(",");
+    let mut ch = std::process::Command::new(exe)
+        .args(["--child", &alg.to_string(), &bits, &ps])
+        .stdout(std::process::Stdio::piped())
+        .stderr(std::process::Stdio::null())
+        .spawn()
+        .unwrap();
+    let t0 = std::time::Instant::now();
+    loop {
+        match ch.try_wait().unwrap() {
+            Some(st) => {
+                let mut out = String::new();
+                use std::io::Read as _;
+                ch.stdout.take().unwrap().read_to_string(&mut out).unwrap();
+                if !st.success() {
+                    return Guarded::Panic("child exited with a failure (panic)".to_string());
+                }
+                let mut lines = out.lines();
+                let l1 = lines.next().unwrap_or("");
+                let l2 = lines.next().unwrap_or("");
+                let p: Vec<usize> = l2.split(',').filter(|x| !x.is_empty()).map(|x| x.parse().unwrap()).collect();
+                return if let Some(n) = l1.strip_prefix("OK ") {
+                    Guarded::Done((Ok(n.parse().unwrap()), p))
+                } else {
+                    Guarded::Done((Err(l1.strip_prefix("ERR ").unwrap_or(l1).to_string()), p))
+                };
+            }
+            None => {
+                if t0.elapsed() > timeout {
+                    let _ = ch.kill();
+                    let _ = ch.wait();
+                    return Guarded::Hang;
+                }
+                std::thread::sleep(Duration::from_micros(300));
+            }
+        }
+    }
+}
+
+
 /// the partitioner VALUE that outlives a call (`partition` takes `&mut self`)
 #[derive(Clone, Copy)]
 enum Part {
@@ -195,6 +308,11 @@ fn one_call(
 }
 
 fn main() {
+    let argv: Vec<String> = std::env::args().collect();
+    if argv.len() >= 5 && argv[1] == "--child" {
+        child_main(&argv[2..]);
+        return;
+    }
     let a = parse_args();
     quiet_panics();
     let mut rng = Rng::new(a.seed);
@@ -208,6 +326,8 @@ fn main() {
     let mut c = Counters { hangs: 0, panics: 0, f64_runs: 0, moved: 0 };
     let mut reuse_sequences = 0usize;
     let mut reuse_calls = 0usize;
+    let mut f64_genuine = 0usize;
+    let mut f64_hangs = 0usize;
     let big = a.tier == "thorough";
     let mut idx = 0usize;
     while idx < a.cases {
@@ -277,6 +397,87 @@ fn main() {
             }
             continue;
         }
+        if r.chance(1, 5) {
+            // ---- genuine f64 weights, compared bit-for-bit with the SpecFloat instance of the generic model;
+            // the checker uses exact arithmetic on the values.  VnBest runs in a child process: with
+            // fractional weights its loop may oscillate for ever (known finding, docs/C14.md).
+            let (wfam, wf) = gen_f64_weights(&mut r, big);
+            let n = wf.len();
+            let plen = if r.chance(1, 14) { if r.chance(1, 2) { n + 1 } else { n.saturating_sub(1) } } else { n };
+            let (_pf, p0) = gen_partition(&mut r, plen);
+            let this = idx;
+            idx += 1;
+            if let Some(o) = a.only {
+                if o != this {
+                    continue;
+                }
+            }
+            f64_genuine += 1;
+            let res: Guarded<(Result<usize, String>, Vec<usize>)> = if alg == 0 {
+                call_child(0, &wf, &p0, Duration::from_millis(4000))
+            } else {
+                let (wf2, p02) = (wf.clone(), p0.clone());
+                match guarded(0, Duration::from_secs(20), move || run_f64(1, wf2, p02)) {
+                    Guarded::Done((r1, p)) => Guarded::Done((r1.map_err(|e| format!("{}|{:?}", coq_err(&e), e)), p)),
+                    Guarded::Panic(m) => Guarded::Panic(m),
+                    Guarded::Hang => Guarded::Hang,
+                }
+            };
+            let (impl_coq, cnt, after, impl_json) = match &res {
+                Guarded::Done((Ok(nm), p)) => {
+                    if *p != p0 {
+                        c.moved += 1;
+                    }
+                    (format!("(IOk {})", coq_nlist(p.iter().map(|x| *x as u128))), *nm, p.clone(),
+                     format!("{{\"ok\":{},\"count\":{}}}", json_usizes(p), nm))
+                }
+                Guarded::Done((Err(e), p)) => {
+                    let mut it = e.splitn(2, '|');
+                    let coqe = it.next().unwrap_or("(IErr 99 0 0)").to_string();
+                    let dbg = it.next().unwrap_or("");
+                    (coqe, 0, p.clone(), format!("{{\"err\":{},\"after\":{}}}", json_str(dbg), json_usizes(p)))
+                }
+                Guarded::Panic(m) => {
+                    c.panics += 1;
+                    ("IPanic".to_string(), 0, vec![], format!("{{\"panic\":{}}}", json_str(m)))
+                }
+                Guarded::Hang => {
+                    f64_hangs += 1;
+                    ("IHang".to_string(), 0, vec![], "{\"hang\":true}".to_string())
+                }
+            };
+            let bits: Vec<u128> = wf.iter().map(|x| x.to_bits() as u128).collect();
+            let coq = format!(
+                "mk14f {}%N {} {} {} {}%N {}",
+                alg,
+                coq_nlist(bits.iter().cloned()),
+                coq_nlist(p0.iter().map(|x| *x as u128)),
+                impl_coq,
+                cnt,
+                coq_nlist(after.iter().map(|x| *x as u128)),
+            );
+            // known finding, decided from the input alone: VnBest on f64 weights that are not all integers
+            let kf = if alg == 0 && wf.iter().any(|x| x.fract() != 0.0) && wf.iter().all(|x| *x >= 0.0) && plen == n {
+                ",\"kf\":\"vnbest-f64-oscillation\""
+            } else {
+                ""
+            };
+            let wtxt: Vec<String> = wf.iter().map(|x| format!("{:?}", x)).collect();
+            let btxt: Vec<String> = bits.iter().map(|x| x.to_string()).collect();
+            let json = format!(
+                "{{\"algorithm\":\"{}\",\"weight_type\":\"f64\",\"pool_threads\":1,\"weights_f64\":[{}],\"weights_bits\":[{}],\"partition\":{},\"impl\":{}{}}}",
+                if alg == 0 { "VnBest" } else { "VnFirst" },
+                wtxt.join(","),
+                btxt.join(","),
+                json_usizes(&p0),
+                impl_json,
+                kf
+            );
+            let key = format!("f64|{}|{:?}|{:?}", alg, bits, p0);
+            let nontrivial = plen == n && n >= 3 && p0.iter().any(|x| *x != 0) && wf.iter().any(|x| *x != 0.0);
+            w.push(coq, json, &key, nontrivial, &format!("{}:{}", if alg == 0 { "best" } else { "first" }, wfam));
+            continue;
+        }
         let (wfam, ws) = gen_weights(&mut r, big);
         let n = ws.len();
         // malformed stream: partition length differs (shorter, longer, empty)
@@ -317,7 +518,7 @@ fn main() {
         }
     }
     w.finish(&format!(
-        "\"hangs\":{},\"panics\":{},\"f64_runs\":{},\"moved\":{},\"reuse_sequences\":{},\"reuse_calls\":{}",
-        c.hangs, c.panics, c.f64_runs, c.moved, reuse_sequences, reuse_calls
+        "\"hangs\":{},\"panics\":{},\"f64_runs\":{},\"f64_genuine\":{},\"f64_vnbest_hangs\":{},\"moved\":{},\"reuse_sequences\":{},\"reuse_calls\":{}",
+        c.hangs, c.panics, c.f64_runs, f64_genuine, f64_hangs, c.moved, reuse_sequences, reuse_calls
     ));
 }
